@@ -17,7 +17,7 @@ Fixpoint starts_with (pre l : bytes) : bool :=
   | a :: pre', b :: l' => (a =? b) && starts_with pre' l'
   | _, [] => false
   end.
-Definition ends_with (suf l : bytes) : bool := starts_with (rev suf) (rev l).
+Definition ends_with (suf l : bytes) : bool := starts_with (frev suf) (frev l).
 
 (* our own temporary files: name.starts_with(".#.") && name.ends_with(".tmp") *)
 Definition is_tmp_name (name : bytes) : bool := starts_with tmp_prefix name && ends_with tmp_suffix name.
